@@ -51,6 +51,21 @@ Definition wellformed_get (c : conn) : bool :=
 Definition no_accept_err (items : list item) : bool :=
   forallb (fun i => match i with Conn _ => true | AcceptErr => false end) items.
 
+(** * What must reach the clients, read off the scripts (not by running the machine)
+
+    A well-formed GET whose client takes the response receives exactly ONE byte
+    string: the response the handler formatted for the observation served for
+    THAT request (200), or the constant error response (500).  Nobody else
+    receives anything.  Nothing of what an earlier request produced appears. *)
+Definition reply_bytes (h : hres) : list Z :=
+  match h with HOk out => out | HErr _ => ERR_BYTES end.
+
+Definition wire_of (c : conn) : list (list Z) :=
+  match kind_of c with KGet => [reply_bytes (c_hnd c)] | _ => [] end.
+Definition wire_of_item (i : item) : list (list Z) :=
+  match i with Conn c => wire_of c | AcceptErr => [] end.
+Definition expected_wire (items : list item) : list (list Z) := flat_map wire_of_item items.
+
 (** * The property as an executable oracle (from the property text) *)
 
 Definition cout_eqb (a b : cout) : bool :=
